@@ -229,7 +229,8 @@ func realKey(kind string, x kIn) []byte {
 
 // mutateK returns a variant of x and a description; half of the variants are
 // semantics-preserving (reordering), half change exactly one thing.
-func mutateK(r *rand.Rand, kind string, x kIn) (kIn, string) {
+func mutateK(r *rand.Rand, kind string, xp *kIn) (kIn, string) {
+	x := xp
 	y := x.clone()
 	shuffle := func() {
 		r.Shuffle(len(y.Ctxt), func(i, j int) { y.Ctxt[i], y.Ctxt[j] = y.Ctxt[j], y.Ctxt[i] })
@@ -238,7 +239,7 @@ func mutateK(r *rand.Rand, kind string, x kIn) (kIn, string) {
 		r.Shuffle(len(y.OIDs), func(i, j int) { y.OIDs[i], y.OIDs[j] = y.OIDs[j], y.OIDs[i] })
 		r.Shuffle(len(y.Restr), func(i, j int) { y.Restr[i], y.Restr[j] = y.Restr[j], y.Restr[i] })
 	}
-	switch r.Intn(14) {
+	switch r.Intn(16) {
 	case 0, 1, 2, 3:
 		shuffle()
 		return y, "reorder"
@@ -328,6 +329,30 @@ func mutateK(r *rand.Rand, kind string, x kIn) (kIn, string) {
 		y.Users = append(y.Users, kUser{O: "user:zz"})
 		y.Restr = append(y.Restr, kRestr{T: "folder", Rel: "viewer"})
 		return y, "user filter / restrictions"
+	case 14:
+		// the same sequence of strings, bracketed differently into contextual tuples: a condition name
+		// (without context) on the first tuple versus a leading object on the second
+		r1, r2 := pick(r, []string{"viewer", "editor"}), pick(r, []string{"viewer", "editor"})
+		u1, u2 := "user:"+pick(r, []string{"a", "b"}), "user:"+pick(r, []string{"a", "b"})
+		x.Ctxt = []kTuple{{O: "doc:1", R: r1, U: u1, C: "doc:2", Cctx: Ctx{}}, {O: "doc:3", R: r2, U: u2, Cctx: Ctx{}}}
+		y.Ctxt = []kTuple{{O: "doc:1", R: r1, U: u1, Cctx: Ctx{}}, {O: "doc:2", R: "doc:3", U: r2, C: u2, Cctx: Ctx{}}}
+		return y, "contextual tuples re-bracketed"
+	case 15:
+		// an absent object-id restriction versus one that lists exactly the user-filter strings
+		if !y.HasOIDs {
+			y.HasOIDs = true
+			y.OIDs = []string{}
+			for _, u := range y.Users {
+				o := u.O
+				if u.Rel != "" {
+					o += "#" + u.Rel
+				}
+				y.OIDs = append(y.OIDs, o)
+			}
+			return y, "object ids = user filter strings"
+		}
+		y.OIDs = append(y.OIDs, "78")
+		return y, "object ids"
 	default:
 		y.OT = y.OT + "x"
 		y.O = y.O + "x"
@@ -342,7 +367,7 @@ func C24(run *Run) {
 	for i := 0; i < n; i++ {
 		kind := pick(r, []string{"check", "check", "read", "rswu", "rut"})
 		x := genKIn(r)
-		y, how := mutateK(r, kind, x)
+		y, how := mutateK(r, kind, &x)
 		keq := bytes.Equal(realKey(kind, x), realKey(kind, y))
 		ev := map[string]any{"e": "Key", "kind": kind, "x": x, "y": y, "keyeq": keq, "how": how}
 		events = append(events, ev)
